@@ -671,6 +671,21 @@ func (s *Search) Find(starts []Start, target func(ins ssa.Instruction) bool, exi
 				facts = facts.without(v) // redefinition (next loop iteration): forget what was known
 			}
 			switch t := ins.(type) {
+			case *ssa.Phi:
+				// a boolean merged from the branches taken (b := x || y): on this path it has the value of the edge we came by
+				if bt, ok := t.Type().Underlying().(*types.Basic); ok && bt.Kind() == types.Bool && n.i == 0 && n.pred >= 0 && n.pred < len(t.Edges) {
+					assumed := false
+					if s.Assume != nil {
+						_, assumed = s.Assume(t) // the rule speaks about this variable itself: leave it to the rule
+					}
+					if val, known := s.evalBool(substParams(t.Edges[n.pred], n.stack), facts); known && !assumed {
+						k := int64(0)
+						if val {
+							k = 1
+						}
+						facts = append(append(pfacts{}, facts...), pfact{t, 'b', k})
+					}
+				}
 			case *ssa.Call:
 				if s.NoInline {
 					break
